@@ -7,7 +7,7 @@ import "github.com/atombender/go-jsonschema/internal/zzvrt"
 // HarnessC09: a property with a default: absent or null -> the decoded field equals the
 // default; present -> the document value is kept; the default literal type-checks.
 func HarnessC09() {
-	mask := zzvrt.Param("KINDS", zzKString|zzKNumber|zzKInteger|zzKBoolean|zzKEnumString|zzKArray)
+	mask := zzvrt.Param("KINDS", zzKString|zzKNumber|zzKInteger|zzKBoolean|zzKEnumString|zzKArray|zzKAny)
 	n := zzvrt.Param("N", 2)
 	pt, ps := zzGen(mask, zzvrt.Param("DEPTH", 1), true)
 	if !ps.hasDefault {
@@ -41,19 +41,8 @@ func HarnessC09() {
 		zzvrt.Check("C09.default-literal-has-field-type", false, zzvrt.Dev{Name: "default-into-pointer-field", Cond: ps.nullable})
 		return
 	}
-	// the default is assumed valid for its own schema (outside the property otherwise)
-	switch ps.kind {
-	case "number":
-		zzvrt.Assume(zzInBoundsF(ps.defF, ps.min, ps.max, ps.exMin, ps.exMax))
-	case "integer":
-		zzvrt.Assume(zzInBoundsI(int64(ps.defF), ps.min, ps.max, ps.exMin, ps.exMax))
-	case "string":
-		zzvrt.Assume(zzLenOK(4, ps.minLen, ps.maxLen))
-		if ps.pattern != "" {
-			return // "dflt" does not match ^a: default invalid for its schema
-		}
-	case "array":
-		zzvrt.Assume(zzLenOK(2, ps.minItems, ps.maxItems))
+	if !zzAssumeDefaultValid(ps) {
+		return
 	}
 	zzvrt.Check("C09.default-literal-has-field-type", true)
 	zzvrt.Check("C09.literals-fit", zzvrt.S2Fits(h))
@@ -74,7 +63,7 @@ func HarnessC09() {
 		return
 	}
 	// value checks (scalars and arrays of strings)
-	if zzvrt.OIsNil(r, "X") && (ps.kind != "array") {
+	if zzvrt.OIsNil(r, "X") && (ps.kind != "array") && (ps.kind != "any") {
 		zzvrt.Check("C09.default-applied", zzvrt.Not(missing))
 		return
 	}
@@ -91,6 +80,13 @@ func HarnessC09() {
 		v := zzvrt.OInt(r, "X")
 		zzvrt.Check("C09.default-applied", zzvrt.Implies(missing, v == int64(ps.defF)))
 		zzvrt.Check("C09.present-value-wins", zzvrt.Implies(zzvrt.Not(missing), v == zzvrt.DInt(d, "x")))
+	case "any":
+		// untyped property: when missing, the interface{} field holds the default (float64 0)
+		if zzvrt.OKind(r, "X") == 2 {
+			zzvrt.Check("C09.default-applied", zzvrt.Implies(missing, zzvrt.OFloat(r, "X") == ps.defF))
+		} else {
+			zzvrt.Check("C09.default-applied", zzvrt.Not(missing))
+		}
 	case "boolean":
 		v := zzvrt.OBool(r, "X")
 		zzvrt.Check("C09.default-applied", zzvrt.Implies(missing, v == ps.defB))
@@ -103,4 +99,27 @@ func HarnessC09() {
 		}
 		zzvrt.Check("C09.present-value-wins", zzvrt.Implies(zzvrt.Not(missing), ln == zzvrt.DLen(d, "x")))
 	}
+}
+
+// zzAssumeDefaultValid assumes that the default of s is valid for s's own constraints
+// (defaults that are invalid for their schema are outside the properties); false if it
+// cannot be.
+func zzAssumeDefaultValid(s *zzSpec) bool {
+	if !s.hasDefault {
+		return true
+	}
+	switch s.kind {
+	case "number":
+		zzvrt.Assume(zzInBoundsF(s.defF, s.min, s.max, s.exMin, s.exMax))
+	case "integer":
+		zzvrt.Assume(zzInBoundsI(int64(s.defF), s.min, s.max, s.exMin, s.exMax))
+	case "string":
+		zzvrt.Assume(zzLenOK(4, s.minLen, s.maxLen))
+		if s.pattern != "" {
+			return false // "dflt" does not match ^a
+		}
+	case "array":
+		zzvrt.Assume(zzLenOK(2, s.minItems, s.maxItems))
+	}
+	return true
 }
